@@ -1,0 +1,23 @@
+//go:build verif
+
+package obj
+
+// Contracts for the deductive checks in /verif (comment-only; compiled only with -tags verif).
+
+// ---- C01 breadth: frame-only contracts (the writers do not modify the meshes they are given) ----
+//@ func WriteMeshes frameonly
+//@   props C01
+//@ func WriteMesh frameonly
+//@   props C01
+//@ func WriteMaterialsFromMesh frameonly
+//@   props C01
+//@ func WriteMaterials frameonly
+//@   props C01
+//@ func writeFaceVerts frameonly
+//@   props C01
+//@ func writeFaceVertsAndUvs frameonly
+//@   props C01
+//@ func writeFaceVertsAndNormals frameonly
+//@   props C01
+//@ func writeFaceVertAndUvsAndNormals frameonly
+//@   props C01
